@@ -14,6 +14,15 @@ def obligation_key(target, ob):
     return "%s/%s[%s]" % (target, ob["kind"], ob["label"])
 
 
+STREAM = None        # (queue, job id) inside a worker process: finished obligations are streamed to the parent
+
+
+def _emit(kind, payload):
+    if STREAM is not None:
+        try: STREAM[0].put((STREAM[1], kind, payload))
+        except Exception: pass
+
+
 def _verify_target(args):
     """worker: (here, repo, qual, tier) -> result dict (no z3 objects)"""
     here, repo, qual, tier = args[:4]
@@ -40,9 +49,19 @@ def _verify_target(args):
             if os.environ.get("PYVC_TB"): out["unsupported"] += "\n" + traceback.format_exc()
             out["wall_s"] = round(time.time() - t0, 2)
             return out
+        from pyvc import concretize
+        replayable_target = concretize.replayable(c)
         out["sha"] = sha; out["lines"] = "%d-%d" % (fn.lineno, fn.end_lineno); out["paths"] = eng.n_paths
         seen = {}
         out["generated"] = len(obls)
+        # plan of this shard (so that the parent knows what is missing if this process has to be killed)
+        plan, seen0 = [], {}
+        for idx, ob in enumerate(obls):
+            ct0 = c.target + ("@" + c.variant if getattr(c, "variant", None) else "")
+            k0 = obligation_key(ct0, ob); seen0[k0] = seen0.get(k0, 0) + 1
+            if idx % nshards == shard and (only is None or ("%s#%d" % (k0, seen0[k0])) in only):
+                plan.append({"id": "%s#%d" % (k0, seen0[k0]), "key": k0, "target": ct0, "kind": ob["kind"], "label": ob["label"], "clause": ob.get("text")})
+        _emit("meta", {"file": c.file, "sha": sha, "lines": out["lines"], "paths": eng.n_paths, "generated": len(obls), "plan": plan})
         for idx, ob in enumerate(obls):
             ctarget = c.target + ("@" + c.variant if getattr(c, "variant", None) else "")
             key = obligation_key(ctarget, ob)
@@ -50,6 +69,7 @@ def _verify_target(args):
             if idx % nshards != shard: continue
             if only is not None and ("%s#%d" % (key, seen[key])) not in only: continue
             ob["id"] = "%s#%d" % (key, seen[key])
+            ob["replayable"] = replayable_target
             discharge(ob, quick=(tier == "quick"), retry=(only is not None))
             rec = {"id": "%s#%d" % (key, seen[key]), "key": key, "target": ctarget, "kind": ob["kind"], "label": ob["label"],
                    "clause": ob.get("text"), "status": ob["status"], "backend": ob.get("backend"), "time_s": ob.get("time_s"),
@@ -77,6 +97,7 @@ def _verify_target(args):
                 except Exception as e:
                     rec["replay"] = None; rec["replay_error"] = "%s: %s" % (type(e).__name__, e)
             out["obligations"].append(rec)
+            _emit("ob", rec)
         # canaries: every reachable exit must stay satisfiable (contradictory assumptions would prove anything)
         can = {"exits": 0, "refuted": 0, "proved": []}
         for kind, tag, st in (eng.exits if shard == 0 else []):
@@ -146,6 +167,74 @@ def load_baseline(here):
     return {}
 
 
+def _job_main(q, jid, f, a):
+    global STREAM
+    STREAM = (q, jid)
+    try:
+        r = f(a)
+    except BaseException:
+        r = {"target": a[2], "obligations": [], "faults": ["worker crashed on %s:\n%s" % (a[2], traceback.format_exc())], "unsupported": None,
+             "shard": a[4] if len(a) > 4 else 0, "lemma": f is _verify_lemma, "wall_s": 0}
+    q.put((jid, "done", r))
+
+
+def _run_jobs(jobs, nprocs, hard_s):
+    """Run each job in its own process (at most nprocs at a time).  A job that does not finish within hard_s seconds is
+    killed (solvers have been seen to ignore their own limits); what it had finished is kept, what it had not is undecided."""
+    ctx = mp.get_context("fork")
+    q = ctx.Queue()
+    pending = list(enumerate(jobs)); running = {}; results = {}; partial = {}
+    while pending or running:
+        while pending and len(running) < nprocs:
+            jid, (f, a) = pending.pop(0)
+            p = ctx.Process(target=_job_main, args=(q, jid, f, a), daemon=True); p.start()
+            running[jid] = (p, time.time()); partial[jid] = {"meta": None, "obs": []}
+        try:
+            jid, kind, payload = q.get(timeout=1.0)
+            if kind == "done":
+                results[jid] = payload
+                pr = running.pop(jid, None)
+                if pr: pr[0].join(timeout=5)
+            elif kind == "meta": partial[jid]["meta"] = payload
+            elif kind == "ob": partial[jid]["obs"].append(payload)
+        except Exception:
+            pass
+        now = time.time()
+        for jid, (p, t0) in list(running.items()):
+            dead = not p.is_alive()
+            if dead and jid not in results:
+                # give a finished process a moment to have its last message read
+                try:
+                    while True:
+                        j2, kind, payload = q.get(timeout=0.5)
+                        if kind == "done": results[j2] = payload; running.pop(j2, None)
+                        elif kind == "meta": partial[j2]["meta"] = payload
+                        elif kind == "ob": partial[j2]["obs"].append(payload)
+                except Exception:
+                    pass
+            if jid in results: running.pop(jid, None); continue
+            if dead or now - t0 > hard_s:
+                if not dead:
+                    p.kill(); p.join(timeout=5)
+                running.pop(jid, None)
+                f, a = jobs[jid]
+                meta = partial[jid]["meta"] or {}
+                done = {o["id"] for o in partial[jid]["obs"]}
+                obs = list(partial[jid]["obs"])
+                why = ("the solver process did not return within the hard limit of %d s and was stopped" % hard_s) if not dead else "the solver process died"
+                for pl in meta.get("plan", []):
+                    if pl["id"] not in done:
+                        obs.append(dict(pl, status="undecided", backend="-", time_s=0, path="", why=why))
+                r = {"target": a[2], "obligations": obs, "faults": [], "unsupported": None if meta else ("no result: " + why),
+                     "shard": a[4] if len(a) > 4 else 0, "file": meta.get("file"), "sha": meta.get("sha"), "lines": meta.get("lines"),
+                     "paths": meta.get("paths"), "generated": meta.get("generated"), "wall_s": round(now - t0, 2), "killed": True}
+                if f is _verify_lemma:
+                    r["lemma"] = True; r["target"] = "lemma::" + a[2]
+                    if not obs: r["faults"].append("lemma %s: %s" % (a[2], why))
+                results[jid] = r
+    return [results[j] for j in range(len(jobs))]
+
+
 def run_property(prop, tier, repo, here, targets=None, procs=None, only=None, retry=True):
     """First pass with the tier's budgets; obligations left undecided get one more pass with larger budgets (so that a busy
     machine does not flip verdicts)."""
@@ -180,10 +269,8 @@ def _run_property(prop, tier, repo, here, targets=None, procs=None, only=None):
     shards = pdef.get("shards", {})
     jobs = [(_verify_target, (here, repo, q, tier, i, shards.get(q, 3), only)) for q in quals for i in range(shards.get(q, 3))] + \
            [(_verify_lemma, (here, repo, l, tier)) for l in (pdef.get("lemmas", []) if not targets else [])]
-    ctx = mp.get_context("fork")
-    with ctx.Pool(min(procs or 15, max(1, len(jobs)))) as pool:
-        asyncs = [pool.apply_async(f, (a,)) for f, a in jobs]
-        raw = [a.get(timeout=3600) for a in asyncs]
+    raw = _run_jobs(jobs, min(procs or 15, max(1, len(jobs))),
+                    hard_s=(2400 if tier != "quick" else 900))
     # merge the shards of one target
     results, by_target = [], {}
     for r in raw:
